@@ -483,7 +483,7 @@ def _save(kind, fi):
         if kind == 0:
             fmt = ['kthlist', 'gml', 'dot', 'dimacs'][fi]
             with stream(fi % 3):
-                F = run_tool('cnfgen', ['-q', 'kcolor', 2, 'gnm', 5, 4, 'addedges', 1, 'save', 'saved.' + fmt])
+                F = run_tool('cnfgen', ['-q', 'kcolor', 2, 'gnm', 5, 4, 'plantclique', 3, 'addedges', 1, 'splitedges', 2, 'save', 'saved.' + fmt])
             return same(F, GraphColoringFormula(g('simple', ['saved.' + fmt]), 2)) and \
                 same(F, run_tool('cnfgen', ['-q', 'kcolor', 2, fmt, 'saved.' + fmt]))
         if kind == 1:
